@@ -12,11 +12,138 @@ import PharmpyProofs.C07.Lemmas
 namespace Pharmpy.C07
 open Pharmpy Expr
 
-/-! ## make_declarative -/
+/-! ## make_declarative
 
-/-- Simulation: the second loop of `make_declarative`, started in a state
-    related by `Inv`, ends in the same environment as the original
-    statements — provided the run never meets a stale capture. -/
+  `mdGoOld` / `makeDeclarativeOld` / `noStaleCaptureOld` model the code before the repair
+  e5b2100 (`fix: make_declarative substitutes pending values into the first assignment of a
+  reassigned symbol`); `mdGo` / `makeDeclarative` / `noStaleCapture` model the code as it is now. -/
+
+/-- Simulation for the pre-repair loop: started in a state related by `Inv`, it ends in
+    the same environment as the original statements — provided the run never
+    meets a stale capture of kind (a) or (b). -/
+theorem mdGoOld_sound {α : Type} (I : Interp α) :
+    ∀ (rest : List St) (seen : List Sym) (cur : Sub) (ρo ρn : Env α),
+      Inv I cur ρo ρn →
+      (∀ y ∈ cur.dom, y ∈ seen) →
+      (∀ y ∈ cur.dom, assignedIn y rest = true) →
+      mdSafeOld seen cur rest = true →
+      run I (mdGoOld seen cur rest) ρn = run I rest ρo := by
+  intro rest
+  induction rest with
+  | nil =>
+    intro seen cur ρo ρn hinv _ hlater _
+    simp only [mdGoOld, run_nil]
+    funext y
+    have hy : y ∉ cur.dom := fun hh => by simpa [assignedIn] using hlater y hh
+    have := hinv y
+    rw [Sub.get_none_of_not_dom cur y hy] at this
+    exact this.symm
+  | cons s rest ih =>
+    intro seen cur ρo ρn hinv hseen hlater hsafe
+    cases s with
+    | ode a r =>
+      simp only [mdSafeOld, Bool.and_eq_true, List.all_eq_true] at hsafe
+      simp only [mdGoOld, run_cons]
+      apply ih seen cur _ _ _ hseen _ hsafe.2
+      · apply hinv.ode a r _ (map_substE_eval hinv r)
+        intro y hy
+        have := hsafe.1 y hy
+        simp only [Bool.not_eq_true', List.contains_eq_mem, decide_eq_false_iff_not] at this
+        exact ⟨Sub.get_none_of_not_dom cur y this.1, this.2⟩
+      · intro y hy
+        simpa [assignedIn_cons_ode] using hlater y hy
+    | assign x e =>
+      have hval : eval I ρn (substE cur e) = eval I ρo e := hinv.eval_substE e
+      by_cases hseenx : seen.contains x = true
+      · -- not the first assignment of x
+        by_cases hl : assignedIn x rest = true
+        · -- in the middle: defer, substituted
+          simp only [mdGoOld, mdSafeOld, hseenx, hl, Bool.not_true, Bool.false_and, Bool.false_eq_true,
+            ↓reduceIte] at hsafe ⊢
+          rw [run_cons]
+          apply ih seen _ _ _ (hinv.defer x _ _ hval) _ _ hsafe
+          · intro y hy
+            rcases Sub.dom_set_subset cur x _ y hy with h | h
+            · subst h; simpa using hseenx
+            · exact hseen y h.1
+          · intro y hy
+            rcases Sub.dom_set_subset cur x _ y hy with h | h
+            · subst h; exact hl
+            · have := hlater y h.1
+              rw [assignedIn_cons_assign] at this
+              have hne : (x == y) = false := by simpa using fun hh : x = y => h.2 hh.symm
+              simpa [hne] using this
+        · -- last: emit and delete
+          have hl' : assignedIn x rest = false := by simpa using hl
+          simp only [mdGoOld, mdSafeOld, hseenx, hl', Bool.not_true, Bool.false_and, Bool.false_eq_true,
+            ↓reduceIte, Bool.and_eq_true, Bool.not_eq_true', List.contains_eq_mem,
+            decide_eq_false_iff_not] at hsafe ⊢
+          rw [run_cons, run_cons]
+          simp only [St.exec, hval]
+          apply ih seen _ _ _ (hinv.emit_del x _ hsafe.1) _ _ hsafe.2
+          · intro y hy
+            exact hseen y (Sub.dom_del_subset cur x y hy).1
+          · intro y hy
+            have hd := Sub.dom_del_subset cur x y hy
+            have := hlater y hd.1
+            rw [assignedIn_cons_assign] at this
+            have hne : (x == y) = false := by simpa using fun hh : x = y => hd.2 hh.symm
+            simpa [hne] using this
+      · -- first assignment of x
+        have hseenx' : seen.contains x = false := by simpa using hseenx
+        have hxdom : x ∉ cur.dom := fun hh => by
+          have := hseen x hh
+          simp [List.contains_eq_mem] at hseenx'
+          exact hseenx' this
+        by_cases hl : assignedIn x rest = true
+        · -- first of several: defer, NOT substituted
+          simp only [mdGoOld, mdSafeOld, hseenx', hl, Bool.not_true, Bool.not_false, Bool.and_false,
+            Bool.false_eq_true, ↓reduceIte, Bool.and_eq_true, List.all_eq_true,
+            Bool.not_eq_true', List.contains_eq_mem, decide_eq_false_iff_not] at hsafe ⊢
+          rw [run_cons]
+          have hfresh : eval I ρn e = eval I ρo e := hinv.eval_fresh e hsafe.1
+          apply ih (x :: seen) _ _ _ (hinv.defer x e _ hfresh) _ _ hsafe.2
+          · intro y hy
+            rcases Sub.dom_set_subset cur x _ y hy with h | h
+            · subst h; simp
+            · exact List.mem_cons_of_mem _ (hseen y h.1)
+          · intro y hy
+            rcases Sub.dom_set_subset cur x _ y hy with h | h
+            · subst h; exact hl
+            · have := hlater y h.1
+              rw [assignedIn_cons_assign] at this
+              have hne : (x == y) = false := by simpa using fun hh : x = y => h.2 hh.symm
+              simpa [hne] using this
+        · -- assigned exactly once: emit
+          have hl' : assignedIn x rest = false := by simpa using hl
+          simp only [mdGoOld, mdSafeOld, hseenx', hl', Bool.not_false, Bool.and_self, ↓reduceIte,
+            Bool.and_eq_true, Bool.not_eq_true', List.contains_eq_mem,
+            decide_eq_false_iff_not] at hsafe ⊢
+          rw [run_cons, run_cons]
+          simp only [St.exec, hval]
+          apply ih (x :: seen) _ _ _
+            (hinv.emit x _ (Sub.get_none_of_not_dom cur x hxdom) hsafe.1) _ _ hsafe.2
+          · intro y hy
+            exact List.mem_cons_of_mem _ (hseen y hy)
+          · intro y hy
+            have := hlater y hy
+            rw [assignedIn_cons_assign] at this
+            have hne : (x == y) = false := by
+              simpa using fun hh : x = y => hxdom (hh ▸ hy)
+            simpa [hne] using this
+
+/-- What held of the pre-repair code: sound under the stronger side-condition
+    `noStaleCaptureOld` (clauses (a) and (b)). -/
+theorem make_declarative_pre_repair_sound_partial {α : Type} (I : Interp α) (ss : List St)
+    (h : noStaleCaptureOld ss = true) (ρ : Env α) :
+    run I (makeDeclarativeOld ss) ρ = run I ss ρ :=
+  mdGoOld_sound I ss [] [] ρ ρ (Inv.refl I ρ) (by simp [Sub.dom]) (by simp [Sub.dom]) h
+
+/-- Simulation for the current loop (first and middle assignments both store the
+    substituted expression): started in a state related by `Inv`, it ends in the
+    same environment as the original statements whenever no emitted statement
+    re-defines a symbol that a pending value reads (clause (b) only; it needs an
+    *input* — data column or parameter — to be assigned after it was read). -/
 theorem mdGo_sound {α : Type} (I : Interp α) :
     ∀ (rest : List St) (seen : List Sym) (cur : Sub) (ρo ρn : Env α),
       Inv I cur ρo ρn →
@@ -50,134 +177,9 @@ theorem mdGo_sound {α : Type} (I : Interp α) :
         simpa [assignedIn_cons_ode] using hlater y hy
     | assign x e =>
       have hval : eval I ρn (substE cur e) = eval I ρo e := hinv.eval_substE e
-      by_cases hseenx : seen.contains x = true
-      · -- not the first assignment of x
-        by_cases hl : assignedIn x rest = true
-        · -- in the middle: defer, substituted
-          simp only [mdGo, mdSafe, hseenx, hl, Bool.not_true, Bool.false_and, Bool.false_eq_true,
-            ↓reduceIte] at hsafe ⊢
-          rw [run_cons]
-          apply ih seen _ _ _ (hinv.defer x _ _ hval) _ _ hsafe
-          · intro y hy
-            rcases Sub.dom_set_subset cur x _ y hy with h | h
-            · subst h; simpa using hseenx
-            · exact hseen y h.1
-          · intro y hy
-            rcases Sub.dom_set_subset cur x _ y hy with h | h
-            · subst h; exact hl
-            · have := hlater y h.1
-              rw [assignedIn_cons_assign] at this
-              have hne : (x == y) = false := by simpa using fun hh : x = y => h.2 hh.symm
-              simpa [hne] using this
-        · -- last: emit and delete
-          have hl' : assignedIn x rest = false := by simpa using hl
-          simp only [mdGo, mdSafe, hseenx, hl', Bool.not_true, Bool.false_and, Bool.false_eq_true,
-            ↓reduceIte, Bool.and_eq_true, Bool.not_eq_true', List.contains_eq_mem,
-            decide_eq_false_iff_not] at hsafe ⊢
-          rw [run_cons, run_cons]
-          simp only [St.exec, hval]
-          apply ih seen _ _ _ (hinv.emit_del x _ hsafe.1) _ _ hsafe.2
-          · intro y hy
-            exact hseen y (Sub.dom_del_subset cur x y hy).1
-          · intro y hy
-            have hd := Sub.dom_del_subset cur x y hy
-            have := hlater y hd.1
-            rw [assignedIn_cons_assign] at this
-            have hne : (x == y) = false := by simpa using fun hh : x = y => hd.2 hh.symm
-            simpa [hne] using this
-      · -- first assignment of x
-        have hseenx' : seen.contains x = false := by simpa using hseenx
-        have hxdom : x ∉ cur.dom := fun hh => by
-          have := hseen x hh
-          simp [List.contains_eq_mem] at hseenx'
-          exact hseenx' this
-        by_cases hl : assignedIn x rest = true
-        · -- first of several: defer, NOT substituted
-          simp only [mdGo, mdSafe, hseenx', hl, Bool.not_true, Bool.not_false, Bool.and_false,
-            Bool.false_eq_true, ↓reduceIte, Bool.and_eq_true, List.all_eq_true,
-            Bool.not_eq_true', List.contains_eq_mem, decide_eq_false_iff_not] at hsafe ⊢
-          rw [run_cons]
-          have hfresh : eval I ρn e = eval I ρo e := hinv.eval_fresh e hsafe.1
-          apply ih (x :: seen) _ _ _ (hinv.defer x e _ hfresh) _ _ hsafe.2
-          · intro y hy
-            rcases Sub.dom_set_subset cur x _ y hy with h | h
-            · subst h; simp
-            · exact List.mem_cons_of_mem _ (hseen y h.1)
-          · intro y hy
-            rcases Sub.dom_set_subset cur x _ y hy with h | h
-            · subst h; exact hl
-            · have := hlater y h.1
-              rw [assignedIn_cons_assign] at this
-              have hne : (x == y) = false := by simpa using fun hh : x = y => h.2 hh.symm
-              simpa [hne] using this
-        · -- assigned exactly once: emit
-          have hl' : assignedIn x rest = false := by simpa using hl
-          simp only [mdGo, mdSafe, hseenx', hl', Bool.not_false, Bool.and_self, ↓reduceIte,
-            Bool.and_eq_true, Bool.not_eq_true', List.contains_eq_mem,
-            decide_eq_false_iff_not] at hsafe ⊢
-          rw [run_cons, run_cons]
-          simp only [St.exec, hval]
-          apply ih (x :: seen) _ _ _
-            (hinv.emit x _ (Sub.get_none_of_not_dom cur x hxdom) hsafe.1) _ _ hsafe.2
-          · intro y hy
-            exact List.mem_cons_of_mem _ (hseen y hy)
-          · intro y hy
-            have := hlater y hy
-            rw [assignedIn_cons_assign] at this
-            have hne : (x == y) = false := by
-              simpa using fun hh : x = y => hxdom (hh ▸ hy)
-            simpa [hne] using this
-
-/-- **make_declarative preserves the model function** on every statement list
-    without a stale capture (`noStaleCapture`, decidable): for every
-    interpretation and every initial environment the rewritten statements
-    compute the same final value for *every* symbol. -/
-theorem make_declarative_sound_partial {α : Type} (I : Interp α) (ss : List St)
-    (h : noStaleCapture ss = true) (ρ : Env α) :
-    run I (makeDeclarative ss) ρ = run I ss ρ :=
-  mdGo_sound I ss [] [] ρ ρ (Inv.refl I ρ) (by simp [Sub.dom]) (by simp [Sub.dom]) h
-
-/-- **The suggested repair is sound** whenever no emitted statement re-defines a
-    symbol that a pending value reads (clause (b) only; it needs an *input* —
-    data column or parameter — to be assigned after it was read): substituting
-    the pending values into the first assignment as well removes witness
-    class (a) altogether. -/
-theorem mdGoFix_sound {α : Type} (I : Interp α) :
-    ∀ (rest : List St) (seen : List Sym) (cur : Sub) (ρo ρn : Env α),
-      Inv I cur ρo ρn →
-      (∀ y ∈ cur.dom, y ∈ seen) →
-      (∀ y ∈ cur.dom, assignedIn y rest = true) →
-      mdSafeFix seen cur rest = true →
-      run I (mdGoFix seen cur rest) ρn = run I rest ρo := by
-  intro rest
-  induction rest with
-  | nil =>
-    intro seen cur ρo ρn hinv _ hlater _
-    simp only [mdGoFix, run_nil]
-    funext y
-    have hy : y ∉ cur.dom := fun hh => by simpa [assignedIn] using hlater y hh
-    have := hinv y
-    rw [Sub.get_none_of_not_dom cur y hy] at this
-    exact this.symm
-  | cons s rest ih =>
-    intro seen cur ρo ρn hinv hseen hlater hsafe
-    cases s with
-    | ode a r =>
-      simp only [mdSafeFix, Bool.and_eq_true, List.all_eq_true] at hsafe
-      simp only [mdGoFix, run_cons]
-      apply ih seen cur _ _ _ hseen _ hsafe.2
-      · apply hinv.ode a r _ (map_substE_eval hinv r)
-        intro y hy
-        have := hsafe.1 y hy
-        simp only [Bool.not_eq_true', List.contains_eq_mem, decide_eq_false_iff_not] at this
-        exact ⟨Sub.get_none_of_not_dom cur y this.1, this.2⟩
-      · intro y hy
-        simpa [assignedIn_cons_ode] using hlater y hy
-    | assign x e =>
-      have hval : eval I ρn (substE cur e) = eval I ρo e := hinv.eval_substE e
       by_cases hl : assignedIn x rest = true
       · -- assigned again later: defer, substituted
-        simp only [mdGoFix, mdSafeFix, hl, Bool.not_true, Bool.and_false, Bool.false_eq_true,
+        simp only [mdGo, mdSafe, hl, Bool.not_true, Bool.and_false, Bool.false_eq_true,
           ↓reduceIte] at hsafe ⊢
         rw [run_cons]
         apply ih (x :: seen) _ _ _ (hinv.defer x _ _ hval) _ _ hsafe
@@ -195,7 +197,7 @@ theorem mdGoFix_sound {α : Type} (I : Interp α) :
       · have hl' : assignedIn x rest = false := by simpa using hl
         by_cases hseenx : seen.contains x = true
         · -- last of several: emit and delete
-          simp only [mdGoFix, mdSafeFix, hseenx, hl', Bool.not_true, Bool.false_and, Bool.false_eq_true,
+          simp only [mdGo, mdSafe, hseenx, hl', Bool.not_true, Bool.false_and, Bool.false_eq_true,
             ↓reduceIte, Bool.and_eq_true, Bool.not_eq_true', List.contains_eq_mem,
             decide_eq_false_iff_not] at hsafe ⊢
           rw [run_cons, run_cons]
@@ -215,7 +217,7 @@ theorem mdGoFix_sound {α : Type} (I : Interp α) :
             have := hseen x hh
             simp [List.contains_eq_mem] at hseenx'
             exact hseenx' this
-          simp only [mdGoFix, mdSafeFix, hseenx', hl', Bool.not_false, Bool.and_self, ↓reduceIte,
+          simp only [mdGo, mdSafe, hseenx', hl', Bool.not_false, Bool.and_self, ↓reduceIte,
             Bool.and_eq_true, Bool.not_eq_true', List.contains_eq_mem,
             decide_eq_false_iff_not] at hsafe ⊢
           rw [run_cons, run_cons]
@@ -231,15 +233,19 @@ theorem mdGoFix_sound {α : Type} (I : Interp α) :
               simpa using fun hh : x = y => hxdom (hh ▸ hy)
             simpa [hne] using this
 
-theorem make_declarative_repaired_sound {α : Type} (I : Interp α) (ss : List St)
-    (h : mdSafeFix [] [] ss = true) (ρ : Env α) :
-    run I (mdGoFix [] [] ss) ρ = run I ss ρ :=
-  mdGoFix_sound I ss [] [] ρ ρ (Inv.refl I ρ) (by simp [Sub.dom]) (by simp [Sub.dom]) h
+/-- **make_declarative preserves the model function** on every statement list
+    without a stale capture (`noStaleCapture`, decidable, clause (b) only): for
+    every interpretation and every initial environment the rewritten
+    statements compute the same final value for *every* symbol. -/
+theorem make_declarative_sound_partial {α : Type} (I : Interp α) (ss : List St)
+    (h : noStaleCapture ss = true) (ρ : Env α) :
+    run I (makeDeclarative ss) ρ = run I ss ρ :=
+  mdGo_sound I ss [] [] ρ ρ (Inv.refl I ρ) (by simp [Sub.dom]) (by simp [Sub.dom]) h
 
--- the repair handles F8's program (rejected by `noStaleCapture`), giving B = 1 + 2
-example : mdSafeFix [] [] [.assign "A" (.lit 1), .assign "B" (.sym "A"), .assign "A" (.lit 2),
+-- the current code handles F8's program (rejected by `noStaleCaptureOld`), giving B = 1 + A, A = 2
+example : noStaleCapture [.assign "A" (.lit 1), .assign "B" (.sym "A"), .assign "A" (.lit 2),
     .assign "B" (.f2 "add" (.sym "B") (.sym "A")), .assign "Y" (.f2 "add" (.sym "P") (.sym "B"))] = true ∧
-    mdGoFix [] [] [.assign "A" (.lit 1), .assign "B" (.sym "A"), .assign "A" (.lit 2),
+    makeDeclarative [.assign "A" (.lit 1), .assign "B" (.sym "A"), .assign "A" (.lit 2),
     .assign "B" (.f2 "add" (.sym "B") (.sym "A")), .assign "Y" (.f2 "add" (.sym "P") (.sym "B"))]
     = [.assign "A" (.lit 2), .assign "B" (.f2 "add" (.lit 1) (.sym "A")),
        .assign "Y" (.f2 "add" (.sym "P") (.sym "B"))] := by decide
@@ -265,12 +271,10 @@ theorem mdGo_lhs_subset (rest : List St) :
         · simp [ih _ _ y h]
       · split at h
         · simp [ih _ _ y h]
-        · split at h
+        · simp only [lhs, List.mem_cons] at h
+          rcases h with h | h
+          · simp [h]
           · simp [ih _ _ y h]
-          · simp only [lhs, List.mem_cons] at h
-            rcases h with h | h
-            · simp [h]
-            · simp [ih _ _ y h]
 
 /-- **The result is declarative**: no symbol is assigned twice — for every input
     (no side-condition). -/
@@ -292,12 +296,10 @@ theorem mdGo_nodup (rest : List St) :
         simp [this] at hc
       · split
         · exact ih _ _
-        · split
-          · exact ih _ _
-          · rename_i h1 h2 h3
-            simp only [lhs, List.nodup_cons]
-            refine ⟨fun hm => ?_, ih _ _⟩
-            exact h3 (mdGo_lhs_subset rest _ _ x hm)
+        · rename_i h1 h2
+          simp only [lhs, List.nodup_cons]
+          refine ⟨fun hm => ?_, ih _ _⟩
+          exact h2 (mdGo_lhs_subset rest _ _ x hm)
 
 theorem make_declarative_single_assignment (ss : List St) : (lhs (makeDeclarative ss)).Nodup :=
   mdGo_nodup ss [] []
@@ -308,20 +310,23 @@ def IZ : Interp Int := ⟨id, fun f xs => match f, xs with
   | "mul", [a, b] => a * b
   | _, _ => 0⟩
 
-/-- **F8, the unrestricted statement is false of the code**: on
-    `A=1; B=A; A=2; B=B+A; Y=P+B` the rewrite (as pharmpy performs it) is
-    rejected by `noStaleCapture` and changes `Y` from `P+3` to `P+4`. -/
+/-- **F8 (repaired in /repo by e5b2100), a theorem about the pre-repair variant**: on
+    `A=1; B=A; A=2; B=B+A; Y=P+B` the rewrite as pharmpy performed it is
+    rejected by `noStaleCaptureOld` and changes `Y` from `P+3` to `P+4`; the
+    current code is accepted by `noStaleCapture` and keeps `Y = P+3`. -/
 theorem make_declarative_witness :
     let ss : List St := [.assign "A" (.lit 1), .assign "B" (.sym "A"), .assign "A" (.lit 2),
       .assign "B" (.f2 "add" (.sym "B") (.sym "A")), .assign "Y" (.f2 "add" (.sym "P") (.sym "B"))]
-    noStaleCapture ss = false ∧
-    makeDeclarative ss = [.assign "A" (.lit 2), .assign "B" (.f2 "add" (.sym "A") (.sym "A")),
+    noStaleCaptureOld ss = false ∧
+    makeDeclarativeOld ss = [.assign "A" (.lit 2), .assign "B" (.f2 "add" (.sym "A") (.sym "A")),
       .assign "Y" (.f2 "add" (.sym "P") (.sym "B"))] ∧
-    run IZ ss (fun _ => 0) "Y" = 3 ∧ run IZ (makeDeclarative ss) (fun _ => 0) "Y" = 4 := by
+    run IZ ss (fun _ => 0) "Y" = 3 ∧ run IZ (makeDeclarativeOld ss) (fun _ => 0) "Y" = 4 ∧
+    noStaleCapture ss = true ∧ run IZ (makeDeclarative ss) (fun _ => 0) "Y" = 3 := by
   decide
 
-/-- Second witness class (b): a pending value reads an input that is assigned
-    before the pending symbol's last assignment: `X=W; W=5; X=X+1`. -/
+/-- **The unrestricted statement is still false of the current code**, witness
+    class (b): a pending value reads an input that is assigned before the
+    pending symbol's last assignment: `X=W; W=5; X=X+1`. -/
 theorem make_declarative_witness_reassigned_input :
     let ss : List St := [.assign "X" (.sym "W"), .assign "W" (.lit 5),
       .assign "X" (.f2 "add" (.sym "X") (.lit 1))]
